@@ -145,3 +145,27 @@ def reject_probe(mido, A, B, C, bad, violation, tag):
                   f'feed({hexs(A)}); feed({hexs(B)} + [{bad!r}]) rejected; '
                   f'feed({hexs(C)}) gave {got!r}; expected the parse of A+B+C '
                   f'{allowed[0]} or of A+C {allowed[1]}', case)
+
+
+def long_streams(mido):
+    """Deterministic long inputs: many messages in one stream, long sysex at
+    power-of-two sizes, long runs of one status.  (stream bytes, label)"""
+    msgs = sample_messages(mido)
+    out = []
+    for reps in (3, 23, 70):            # 87, 667, 2030 messages
+        data = []
+        for r in range(reps):
+            for i, m in enumerate(msgs):
+                data += m.bytes()
+        out.append((data, f'{reps}x all sample messages'))
+    for n in (63, 64, 65, 127, 128, 129, 255, 256, 257, 1000, 1022, 1023, 1024,
+              1025, 4095, 4096, 4097, 65535, 65536):
+        out.append(([0xF0] + [(i * 3) & 0x7F for i in range(n)] + [0xF7, 0xF8],
+                    f'sysex with {n} data bytes'))
+    for n in (64, 65, 66, 200, 1000):
+        out.append(([0x92, 1, 2] * n, f'{n} equal note_on messages'))
+        out.append(([0xF8] * n + [0x90, 5] + [0xF8] * 3 + [6],
+                    f'{n} clocks then an interrupted note'))
+        out.append(([0xC3, 7] * n + [0xF6] * n, f'{n} program changes then '
+                    f'{n} tune requests'))
+    return out
